@@ -182,7 +182,7 @@ Proof.
     pose proof (wt_variant_inv _ _ _ Hwt) as Hx. cbn [strings_small] in Hss.
     specialize (IH (ex_intro _ t Hx) Hss (d + 1)).
     intros c c' H Hb. cbn [marshal_p] in H. cbv zeta in H. cbn [relabel] in Hb |- *.
-    destruct (MAX_DEPTH <=? d); [discriminate|].
+    destruct (MAX_DEPTH <=? d); [discriminate|]. destruct (negb (ty_eqb (ty_of x) t)); [discriminate|].
     destruct (is_ok (validate_signature (to_str t))) eqn:Ev; [|discriminate]. apply validate_signature_len in Ev.
     destruct (relabel x (mfds c)) as [x' n'] eqn:Er. cbn [fst snd] in *.
     specialize (IH _ _ H). cbn [mbuf mfds] in IH. rewrite Er in IH. cbn [fst snd] in IH. specialize (IH Hb).
